@@ -17,8 +17,10 @@ NONE = 1000
 EXPRS = ["csnap", "chv", "d.items", "kids:items.value", "value", "child.value", "child:value", "child.child.value", "kids.items.value", "kids:items:value",
          "child.kids.items.value", "[child,kids.items].value", "kids.items.child.value", "d.items.value",
          "child.d:items.value", "+tracked.value", "+tracked:kids.items", "+ltracked:items.value", "child.*", "kids.items",
-         "child"]
+         "child", "s.items.value", "s.items", "child.s:items.value", "dl.items.items.value", "dl.items.items"]
 NH = 3
+XTRAIT = [None]      # ONE CTrait object handed to add_trait for every object that has no donor yet
+LINK_MUTS = ("child", "kidsassign", "kids", "dassign", "d", "sassign", "s", "dlassign", "dl", "dlin")
 
 
 def _api():
@@ -110,16 +112,26 @@ class Pool(object):
         if isinstance(event, TraitChangeEvent):
             return ["trait", self.tok.get(id(event.object), 0), event.name]
         if isinstance(event, ListChangeEvent):
-            return ["l", self.owner_of(event.object), ""]
+            k = self.owner_of(event.object)
+            return ["L" if k >= 100 else "l", k, ""]
         if isinstance(event, DictChangeEvent):
-            return ["m", self.owner_of(event.object), ""]
+            k = self.owner_of(event.object)
+            return ["m" if k >= 0 else "M", abs(k), ""]
+        if isinstance(event, SetChangeEvent):
+            return ["s", self.owner_of(event.object), ""]
         return ["other", 0, type(event).__name__]
 
     def owner_of(self, container):
+        """kids / d / s: the owner's number; dl: minus the owner's number; an inner list of dl: 100 * owner + key"""
         for k in range(1, NOBJ + 1):
-            o = self.objs[k]
-            if o.__dict__.get("kids") is container or o.__dict__.get("d") is container:
+            dd = self.objs[k].__dict__
+            if dd.get("kids") is container or dd.get("d") is container or dd.get("s") is container:
                 return k
+            if dd.get("dl") is container:
+                return -k
+            for key, inner in dd.get("dl", {}).items():
+                if inner is container:
+                    return 100 * k + (int(key) if key.isdigit() else 77)
         return 0
 
     def heap(self):
@@ -132,7 +144,16 @@ class Pool(object):
             kids.append([self.tok.get(id(x), 0) for x in o.__dict__.get("kids", ())])
             d.append([[int(key) if key.isdigit() else 777, self.tok.get(id(v), 0)] for key, v in o.__dict__.get("d", {}).items()])
         vals = [self.objs[k].__dict__.get("value", 0) if k != NOVAL else 0 for k in range(1, NOBJ + 1)]
-        return {"child": child, "kids": kids, "d": d, "vals": vals}
+        s, dl, hasx, xv = [], [], [], []
+        for k in range(1, NOBJ + 1):
+            o = self.objs[k]
+            s.append(sorted(self.tok.get(id(x), 0) for x in o.__dict__.get("s", ())))
+            dl.append([[int(key) if key.isdigit() else 777, [self.tok.get(id(x), 0) for x in inner]]
+                       for key, inner in o.__dict__.get("dl", {}).items()])
+            has = "extra" in o._instance_traits()
+            hasx.append(1 if has else 0)
+            xv.append(o.__dict__.get("extra", 0) if has else 0)
+        return {"child": child, "kids": kids, "d": d, "vals": vals, "s": s, "dl": dl, "hasx": hasx, "xv": xv}
 
     def census(self):
         """per notifier list of the pool: how many entries belong to OUR handlers (user notifiers and maintainers of the
@@ -153,11 +174,14 @@ class Pool(object):
         tot = []
         for k in range(1, NOBJ + 1):
             o = self.objs[k]
-            for n in ("child", "kids", "d", "value", "trait_added", "kids_items", "d_items", "csnap", "chv"):
+            for n in ("child", "kids", "d", "value", "trait_added", "kids_items", "d_items", "csnap", "chv", "s", "dl",
+                      "s_items", "dl_items", "extra"):
                 t = o._trait(n, 0)
                 tot.append(count(t._notifiers(False)) if t is not None else 0)
-            tot.append(count(o.__dict__["kids"].notifiers) if "kids" in o.__dict__ else 0)
-            tot.append(count(o.__dict__["d"].notifiers) if "d" in o.__dict__ else 0)
+            for cn in ("kids", "d", "s", "dl"):
+                tot.append(count(o.__dict__[cn].notifiers) if cn in o.__dict__ else 0)
+            # inner lists of dl: one total (their number varies)
+            tot.append(sum(count(inner.notifiers) for inner in o.__dict__.get("dl", {}).values()))
             tot.append(count(o._notifiers(False)))
         return tot
 
@@ -202,7 +226,7 @@ class Pool(object):
         for h in range(1, NH + 1):
             own = self.regs.get(h, [""])[0]
             out.append([ev for ev in self.log[h]
-                        if not (ev[0] == "trait" and ev[2] in ("csnap", "chv", "w", "tokn") and ev[2] != own)])
+                        if not (ev[0] == "trait" and ev[2] in ("csnap", "chv", "w", "tokn", "trait_modified") and ev[2] != own)])
         return out
 
     def probe(self):
@@ -221,6 +245,27 @@ class Pool(object):
                 own = self.regs.get(h, [""])[0]
                 counts[h][k - 1] = sum(1 for ev in self.log[h]
                                        if ev == ["trait", k, "value"] or (own in ("csnap", "chv") and ev[2] == own))
+        self.clear_logs()
+        return [counts[h] for h in range(1, NH + 1)]
+
+    def xprobe_safe(self):
+        try:
+            return self.xprobe()
+        except Exception:
+            return [[9] * NOBJ for _ in range(NH)]
+
+    def xprobe(self):
+        """the same question for the dynamic trait `extra` of the objects that have one"""
+        counts = {h: [0] * NOBJ for h in range(1, NH + 1)}
+        for k in range(1, NOBJ + 1):
+            o = self.objs[k]
+            if "extra" not in o._instance_traits():
+                continue
+            self.clear_logs()
+            self.muts.append((self.heap(), {"t": "xv", "op": "", "x": k, "a": [0, 0, 0], "xs": [], "ps": [], "h": 0, "e": ""}))
+            o.extra += 1
+            for h in range(1, NH + 1):
+                counts[h][k - 1] = sum(1 for ev in self.log[h] if ev == ["trait", k, "extra"])
         self.clear_logs()
         return [counts[h] for h in range(1, NH + 1)]
 
@@ -287,6 +332,81 @@ def apply_mut(pool, m):
             dd.clear()
         else:
             raise MachineryError(op)
+    elif t == "sassign":
+        x.s = set(O(k) for k in m["xs"])
+    elif t == "s":
+        ss = x.s
+        arg = set(O(k) for k in m["xs"])
+        if op == "add":
+            ss.add(O(a[0]))
+        elif op == "discard":
+            ss.discard(O(a[0]))
+        elif op == "remove":
+            ss.remove(O(a[0]))
+        elif op == "clear":
+            ss.clear()
+        elif op == "update":
+            ss.update([O(k) for k in m["xs"]])        # a list: may overlap the present members
+        elif op == "ior":
+            ss |= arg
+        elif op == "iand":
+            ss &= arg
+        elif op == "isub":
+            ss -= arg
+        elif op == "ixor":
+            ss ^= arg
+        elif op == "difference_update":
+            ss.difference_update(arg)
+        elif op == "intersection_update":
+            ss.intersection_update(arg)
+        elif op == "symmetric_difference_update":
+            ss.symmetric_difference_update(arg)
+        else:
+            raise MachineryError(op)
+    elif t == "dlassign":
+        x.dl = {ckey(k): [O(v) for v in vs] for k, vs in m["ps"]}
+    elif t == "dl":
+        dd = x.dl
+        if op == "setitem":
+            dd[ckey(a[0])] = [O(k) for k in m["xs"]]        # a NEW list, possibly equal to the one stored
+        elif op == "delitem":
+            del dd[ckey(a[0])]
+        elif op == "clear":
+            dd.clear()
+        else:
+            raise MachineryError(op)
+    elif t == "dlin":
+        l = x.dl[ckey(a[3])]
+        xs = [O(k) for k in m["xs"]]
+        if op == "append":
+            l.append(xs[0])
+        elif op == "extend":
+            l.extend(xs)
+        elif op == "remove":
+            l.remove(xs[0])
+        elif op == "pop":
+            l.pop() if a[0] == NONE else l.pop(a[0])
+        elif op == "setitem":
+            l[a[0]] = xs[0]
+        elif op == "insert":
+            l.insert(a[0], xs[0])
+        elif op == "clear":
+            l.clear()
+        elif op == "reverse":
+            l.reverse()
+        else:
+            raise MachineryError(op)
+    elif t == "addx":
+        donors = [o for o in pool.objs[1:] if "extra" in o._instance_traits()]
+        if donors:
+            x.add_trait("extra", donors[m["a"][0] % len(donors)].trait("extra"))     # another object's instance trait
+        else:
+            if XTRAIT[0] is None:
+                from traits.api import Int
+                XTRAIT[0] = Int().as_ctrait()
+            x.add_trait("extra", XTRAIT[0])
+    elif t == "xv":
+        x.extra += 1
     else:
         raise MachineryError(t)
 
@@ -340,7 +460,7 @@ def random_mut(rnd, heap, allow_loop):
         m.update(t="kids", op=op, a=a, xs=xs)
     elif u < 0.68:
         m.update(t="dassign", ps=[[k, ro()] for k in rnd.sample([1, 2, 3], rnd.randint(0, 2))])
-    elif u < 0.85:
+    elif u < 0.8:
         op = rnd.choice(["setitem", "setitem", "delitem", "update", "ior", "pop", "clear"])
         keys = [1, 2, 3, 11, 12]
         a, ps = [0, 0, 0], []
@@ -358,15 +478,82 @@ def random_mut(rnd, heap, allow_loop):
         elif op == "pop":
             a = [rnd.choice([1, 2, 3]), 1, 0]
         m.update(t="d", op=op, a=a, ps=ps)
-    else:
+    elif u < 0.9:
         m.update(t="value", x=rnd.randint(1, NOBJ - 1))
+    else:
+        m = random_mut2(rnd, heap, m, x, ro)
+    return m
+
+
+def random_mut2(rnd, heap, m, x, ro):
+    """sets, the nested container dl, the dynamic trait"""
+    u = rnd.random()
+    cur_s = heap["s"][x - 1]
+    cur_dl = heap["dl"][x - 1]
+    if u < 0.08:
+        same = rnd.random() < 0.3
+        m.update(t="sassign", xs=list(cur_s) if same else sorted({ro() for _ in range(rnd.randint(0, 3))}))
+    elif u < 0.45:
+        op = rnd.choice(["add", "add", "discard", "remove", "clear", "update", "update", "ior", "iand", "isub", "ixor",
+                         "difference_update", "intersection_update", "symmetric_difference_update"])
+        a, xs = [0, 0, 0], []
+        if op in ("add", "discard", "remove"):
+            a[0] = ro()
+        elif op != "clear":
+            xs = sorted({ro() for _ in range(rnd.randint(0, 3))})
+            if op == "update" and cur_s and rnd.random() < 0.6:
+                xs = sorted(set(xs) | {rnd.choice(cur_s)})          # overlap with what is already there
+        m.update(t="s", op=op, a=a, xs=xs)
+    elif u < 0.52:
+        m.update(t="dlassign", ps=[[k, [ro() for _ in range(rnd.randint(0, 2))]] for k in rnd.sample([1, 2, 3], rnd.randint(0, 2))])
+    elif u < 0.72:
+        op = rnd.choice(["setitem", "setitem", "setitem", "delitem", "clear"])
+        a, xs = [0, 0, 0], []
+        if op == "setitem":
+            a[0] = rnd.choice([1, 2, 3, 11, 12])
+            key = a[0] if a[0] < 10 else a[0] - 10
+            old = [vs for k, vs in cur_dl if k == key]
+            if old and rnd.random() < 0.5:
+                xs = list(old[0])                                   # an equal but distinct list over an existing key
+            else:
+                xs = [ro() for _ in range(rnd.randint(0, 2))]
+        elif op == "delitem":
+            a[0] = rnd.choice([1, 2, 3])
+        m.update(t="dl", op=op, a=a, xs=xs)
+    elif u < 0.9:
+        keys = [k for k, _ in cur_dl] or [1]
+        key = rnd.choice(keys)
+        inner = ([vs for k, vs in cur_dl if k == key] or [[]])[0]
+        n = len(inner)
+        op = rnd.choice(["append", "append", "extend", "remove", "pop", "setitem", "insert", "clear", "reverse"])
+        a, xs = [0, 0, 0, key], []
+        if op in ("append", "remove"):
+            xs = [ro()]
+        elif op == "extend":
+            xs = [ro() for _ in range(rnd.randint(0, 2))]
+        elif op == "pop":
+            a[0] = NONE if rnd.random() < 0.5 else rnd.randint(-n - 1, n)
+        elif op in ("setitem", "insert"):
+            a[0], xs = rnd.randint(-n - 1, n), [ro()]
+        if n > 4 and op in ("append", "extend", "insert"):
+            op, xs = "clear", []
+        m.update(t="dlin", op=op, a=a, xs=xs)
+    elif u < 0.96 and not heap["hasx"][x - 1]:
+        m.update(t="addx", a=[rnd.randint(0, 3), 0, 0])
+    else:
+        have = [k for k in range(1, NOBJ + 1) if heap["hasx"][k - 1]]
+        if have:
+            m.update(t="xv", x=rnd.choice(have))
+        else:
+            m.update(t="value", x=rnd.randint(1, NOBJ - 1))
     return m
 
 
 def on_cycle(heap, x):
     """does object x lie on a cycle of the heap? (trace control only: after mutating a link of such an object the
     code is off-specification - known finding F8 - and the history ends)"""
-    succ = lambda k: ({heap["child"][k - 1]} - {0}) | set(heap["kids"][k - 1]) | {v for _, v in heap["d"][k - 1]}
+    succ = lambda k: (({heap["child"][k - 1]} - {0}) | set(heap["kids"][k - 1]) | {v for _, v in heap["d"][k - 1]}
+                      | set(heap["s"][k - 1]) | {v for _, vs in heap["dl"][k - 1] for v in vs})
     seen, todo = set(), list(succ(x))
     while todo:
         y = todo.pop()
@@ -408,7 +595,7 @@ def run_history(rnd, steps, t, p_loop=0.0):
                 exc = type(ex).__name__
                 probe = [[0] * NOBJ for _ in range(NH)]
             out.append({"tid": t, "step": s, "m": m, "exc": exc, "pre": pre, "post": post, "regs": regs1,
-                        "regs2": pool.regs_list(), "calls": pool.calls(), "probe": probe, "census0": pool.census0,
+                        "regs2": pool.regs_list(), "calls": pool.calls(), "probe": probe, "xprobe": pool.xprobe_safe(), "census0": pool.census0,
                         "census1": census1, "census2": pool.census(), "paths": [], "alive": alive, "dropped": len(pool.dropped)})
             continue
         if 0.90 < u <= 0.985:
@@ -423,11 +610,12 @@ def run_history(rnd, steps, t, p_loop=0.0):
             since = [{"pre": a, "m": b} for a, b in (pool.muts[start:] if start is not None else [])]
             pool.last_read[p] = len(pool.muts)
             out.append({"tid": t, "step": s, "m": m, "exc": exc, "pre": pre, "post": pool.heap(), "regs": regs1,
-                        "regs2": regs1, "calls": pool.calls(), "probe": [], "census0": pool.census0, "census1": census1,
+                        "regs2": regs1, "calls": pool.calls(), "probe": [], "xprobe": [], "census0": pool.census0, "census1": census1,
                         "census2": census1, "paths": [], "alive": 0, "dropped": len(pool.dropped), "ret": ret, "runs": runs,
                         "since": since, "first": 1 if start is None else 0})
             continue
-        if 0.885 < u <= 0.90 and s > 1:
+        if 0.885 < u <= 0.90 and s > 1 and not any(pre["hasx"]):
+            # (instance traits given by add_trait are not part of an object's pickled / copied state)
             kind = rnd.choice([-1, 2, 4, 5])
             m = {"t": "copy", "h": 0, "e": "", "op": str(kind), "x": 1, "a": [kind, 0, 0], "xs": [], "ps": []}
             try:
@@ -442,7 +630,7 @@ def run_history(rnd, steps, t, p_loop=0.0):
                 rets, exc = [[], []], exc or type(ex).__name__
             probe = pool.probe()
             out.append({"tid": t, "step": s, "m": m, "exc": exc, "pre": pre, "post": post, "regs": regs1, "regs2": [],
-                        "calls": pool.calls(), "probe": probe, "census0": pool.census0, "census1": census1,
+                        "calls": pool.calls(), "probe": probe, "xprobe": pool.xprobe_safe(), "census0": pool.census0, "census1": census1,
                         "census2": pool.census(), "paths": [], "alive": 0, "dropped": 1, "rets": rets})
             continue
         if u < 0.22 or not regs1 and u < 0.5:
@@ -477,9 +665,9 @@ def run_history(rnd, steps, t, p_loop=0.0):
         census2 = pool.census()
         probe = pool.probe()
         out.append({"tid": t, "step": s, "m": m, "exc": exc, "pre": pre, "post": post, "regs": regs1, "regs2": regs2,
-                    "calls": calls, "probe": probe, "census0": pool.census0, "census1": census1, "census2": census2,
+                    "calls": calls, "probe": probe, "xprobe": pool.xprobe_safe(), "census0": pool.census0, "census1": census1, "census2": census2,
                     "paths": paths, "alive": 0, "dropped": len(pool.dropped)})
-        if m["t"] in ("child", "kidsassign", "kids", "dassign", "d") and on_cycle(pre, m["x"]):
+        if m["t"] in LINK_MUTS and on_cycle(pre, m["x"]):
             break               # known finding F8: from here on the code is off-specification
         if NOVAL in post["kids"][0] or post["child"][0] == NOVAL:
             break               # the root's observed properties require `value` there: inapplicable from here on
@@ -516,7 +704,7 @@ def step_record(pool, t, s, m, do):
     post = pool.heap()
     probe = pool.probe()
     return {"tid": t, "step": s, "m": m, "exc": exc, "pre": pre, "post": post, "regs": regs1, "regs2": pool.regs_list(),
-            "calls": calls, "probe": probe, "census0": pool.census0, "census1": census1, "census2": pool.census(),
+            "calls": calls, "probe": probe, "xprobe": pool.xprobe_safe(), "census0": pool.census0, "census1": census1, "census2": pool.census(),
             "paths": [], "alive": 0, "dropped": 0}
 
 
@@ -529,10 +717,28 @@ def case_records(kind, pre, m, t):
     root = pool.objs[1]
     O = lambda k: pool.objs[k]
     blank = {"h": 0, "e": "", "op": "", "x": 1, "a": [0, 0, 0], "xs": [], "ps": []}
+    follow = []
     if kind == "list":
         root.kids = [O(k) for k in pre]
         exprs = {1: "kids.items.value", 2: "+ltracked:items.value", 3: "kids.items"}
         clear = dict(blank, t="kids", op="clear")
+    elif kind == "set":
+        root.s = set(O(k) for k in pre)
+        exprs = {1: "s.items.value", 2: "s.items", 3: "s.items.value"}
+        clear = dict(blank, t="s", op="clear")
+        # afterwards every item is removed again, one by one (an item hooked twice stays hooked)
+        follow = [dict(blank, t="s", op="discard", a=[k, 0, 0]) for k in (2, 3)]
+    elif kind == "dl":
+        root.dl = dict([("1", [O(k) for k in pre])] + ([("2", [O(k) for k in reversed(pre)])] if len(pre) == 2 else []))
+        exprs = {1: "dl.items.items.value", 2: "dl.items.items", 3: "dl.items.items.value"}
+        clear = dict(blank, t="dl", op="clear", a=[0, 0, 0, 0])
+        # afterwards the list under key 1 grows and shrinks (a replaced list must be the one that is hooked)
+        follow = [dict(blank, t="dlin", op="append", a=[0, 0, 0, 1], xs=[3]), dict(blank, t="dlin", op="append", a=[0, 0, 0, 1], xs=[2]),
+                  dict(blank, t="dlin", op="remove", a=[0, 0, 0, 1], xs=[3])]
+    elif kind == "dyn":
+        root.child = O(pre[0])
+        exprs = {1: "child.*", 2: "child.*", 3: "child"}
+        clear = dict(blank, t="child", a=[0, 0, 0])
     else:
         root.d = {str(k): O(v) for k, v in pre}
         exprs = {1: "d.items.value", 2: "d.items", 3: "d.items.value"}
@@ -555,14 +761,19 @@ def case_records(kind, pre, m, t):
         since = [{"pre": a, "m": b} for a, b in (pool.muts[start:] if start is not None else [])]
         pool.last_read[p] = len(pool.muts)
         return {"tid": t, "step": step, "m": rm, "exc": exc, "pre": pre_h, "post": pool.heap(), "regs": pool.regs_list(),
-                "regs2": pool.regs_list(), "calls": [[], [], []], "probe": [], "census0": pool.census0,
+                "regs2": pool.regs_list(), "calls": [[], [], []], "probe": [], "xprobe": [], "census0": pool.census0,
                 "census1": pool.census0, "census2": pool.census0, "paths": [], "alive": 0, "dropped": 0, "ret": ret,
                 "runs": runs, "since": since, "first": 1 if start is None else 0}
 
     def mut(step, mm):
         pool.muts.append((pool.heap(), mm))
         return step_record(pool, t, step, mm, lambda: apply_mut(pool, mm))
-    reads = WITH_READS[0]
+    reads = WITH_READS[0] and kind in ("list", "dict")
+    if kind == "dyn":
+        out = [mut(1, dict(blank, t="addx", x=k, a=[0, 0, 0])) for k in m["xs"]]
+        out.append(mut(2, dict(blank, t="child", a=[5 - pre[0], 0, 0])))          # the other object becomes the child
+        out.append(mut(4, clear))
+        return out + [collect_record(pool, out[-1], blank)]
     out = ([read(0)] if reads else []) + [mut(1, m)]
     if out[-1]["exc"] and out[-1]["exc"] not in ("IndexError", "KeyError", "ValueError"):
         return out
@@ -574,16 +785,28 @@ def case_records(kind, pre, m, t):
         for k in (2, 3):
             out.append(mut(3, dict(blank, t="value", x=k)))
         out.append(read(3))
+    for fm in follow:
+        out.append(mut(3, fm))
     out.append(mut(4, clear))
     if reads:
         out.append(read(5))
+    del root, O
+    out.append(collect_record(pool, out[-1], blank))
+    return out
+
+
+def collect_record(pool, last, blank):
+    """end of a case: every reference to the pool is dropped; nothing may survive"""
     refs = [weakref.ref(o) for o in pool.objs[1:]] + [weakref.ref(o) for o in pool.owners.values()]
-    last = dict(out[-1])
-    del pool, root, O
+    last = dict(last)
+    pool.objs = None
+    pool.owners = None
+    pool.handlers = None
+    pool.muts = None
+    del pool
     gc.collect()
     last.update(m=dict(blank, t="collect"), alive=sum(1 for w in refs if w() is not None), step=6, exc="")
-    out.append(last)
-    return out
+    return last
 
 
 _tid = [0]
@@ -654,9 +877,17 @@ def run_for(rep, tier, seed, pid):
         shutil.rmtree(work, ignore_errors=True)
 
 
-def judge_filtered(rep, trace, n, sig_of, spec, cfg):
+def judge_filtered(rep, trace, n, sig_of, spec, cfg, label=None):
+    chunks = judge.split_trace(trace)
+    if chunks:
+        if sum(k for _, k in chunks) != n:
+            raise MachineryError("trace has %d records, expected %d" % (sum(k for _, k in chunks), n))
+        for j, (path, k) in enumerate(chunks, 1):
+            judge_filtered(rep, path, k, sig_of, spec, cfg, label="%s[chunk %d/%d]" % (spec, j, len(chunks)))
+            os.unlink(path)
+        return
     res = tlc.run_tlc(spec, cfg, workers=4, env={"TRACE_FILE": trace}, timeout=5000, heap="8g")
-    rep.add_tlc(spec, res)
+    rep.add_tlc(label or spec, res)
     if res.distinct != n + 65:
         raise MachineryError("judge visited %d states, expected %d records" % (res.distinct, n))
     rejects = tlaval.find_printed(res.stdout, "REJECT")
